@@ -36,6 +36,8 @@ struct RawRec {
 impl Writer<SimWorld> for RawRec {
     type Cli = cli::Empty;
     async fn handle_event(&mut self, ev: parser::Result<Event<event::Cucumber<SimWorld>>>, _: &cli::Empty) {
+        // a "helper task" logging on behalf of a step / hook that is awaiting (explicit parent span)
+        world::emit_on_behalf();
         let e = self.rec.record(&ev);
         self.core.progress();
         self.events.borrow_mut().push(e);
